@@ -1088,7 +1088,8 @@ fn pad_integral(
     let prefix_width = f.alternate() as usize * prefix.len() + f.sign_plus() as usize;
     let min_digits = f.width().unwrap_or(0).saturating_sub(prefix_width);
     let mut pad = match usize::try_from(digits) {
-        Ok(digits) => min_digits.saturating_sub(digits),
+        // the number 0 has no significant digit but is written as "0"
+        Ok(digits) => min_digits.saturating_sub(digits.max(1)),
         Err(_) => 0,
     };
 
